@@ -39,6 +39,15 @@ func genScenario(t *rapid.T) *modsim.Scenario {
 	}
 	sc.Steps = append(sc.Steps, modsim.Step{Op: "shutdown"})
 	sc.Delays = modsim.GenDelays(t, sc.Modules, 2)
+	// After a Start that failed in a start routine the caller may go on with management passes (retry, switch
+	// modules). After a failed prep the module system is not usable beyond Shutdown (see DESIGN.md section 8).
+	prepFault := false
+	for _, m := range sc.Modules {
+		prepFault = prepFault || m.Prep.Fault != ""
+	}
+	if sc.Mgmt && !prepFault && rapid.Bool().Draw(t, "manage_after_failed_start") {
+		sc.ManageAfterFailedStart = true
+	}
 	return sc
 }
 
